@@ -138,7 +138,7 @@ pub fn gen_magic_batch(d: &mut D) -> Vec<Spec> {
                         }
                         s.container.forward_attrs = match d.below(4) {
                             0 => Fwd::List(vec!["doc".into(), "serde".into()]),
-                            1 => Fwd::List(vec!["foo".into(), "other::path".into(), "cfg".into()]),
+                            1 => Fwd::List(vec!["foo".into(), "other::path".into(), "cfg".into(), "r#move".into()]),
                             _ => Fwd::Bare,
                         };
                     }
@@ -178,6 +178,9 @@ pub fn gen_magic_batch(d: &mut D) -> Vec<Spec> {
             // a multi-segment attribute name next to the (possibly multi-segment) names of a forward_attrs list
             if d.ratio(1, 4) {
                 s.container.attributes.push("ns::at".into());
+            }
+            if d.ratio(1, 6) {
+                s.container.attributes.push("r#type".into());
             }
             // ordinary fields
             let nf = d.below(3);
@@ -311,6 +314,8 @@ pub const FOREIGN: &[&str] = &[
     "#[allow(dead_code)]",
     "#[foo]",
     "#[bar(= = =)]",
+    "#[r#move]",
+    "#[r#move(x)]",
 ];
 
 pub fn gen_attrset(w: &World, recv: Option<&Spec>, d: &mut D, mode: Mode, st: &mut InputStats, allow_absent: bool) -> AttrSet {
@@ -429,7 +434,7 @@ pub fn gen_elem(w: &World, s: &Spec, d: &mut D, mode: Mode, body_mode: Mode, st:
     });
     // a defaulted const must not precede a non-defaulted type parameter; the sort above ensures it
     // (a where-clause needs no parameter list: `struct S where u8: Copy;`)
-    let where_clause = if d.ratio(1, 3) { Some(d.pick(&["u8: Copy", "Vec<u8>: Clone, String: Default,", "String: Clone", "i8: Copy,"]).to_string()) } else { None };
+    let where_clause = if d.ratio(1, 3) { Some(d.pick(&["u8: Copy", "Vec<u8>: Clone, String: Default,", "String: Clone", "i8: Copy,", ""]).to_string()) } else { None };
     let attrs = gen_attrset(w, Some(s), d, mode, st, false);
     let body = match s.tr {
         Trait::FromField => {
